@@ -48,6 +48,9 @@ def run(ctx):
     for a in ACTIONS:
         if r.coverage.get(a, (0, 0))[1] == 0:
             raise lib.ModelFailure("MC_Threads: action %s never taken (vacuous model check)" % a)
+    if not q:
+        r2 = lib.tlc("MC_Threads", cfg="MC_Threads_thorough2", workers=8, timeout=1500, heap="6g", deadlock=True)
+        ctx.mc_must_pass(r2, "all interleavings, 3 threads x 5 items (MC_Threads_thorough2)", "MC_Threads")
     live = "MC_Threads_live" if q else "MC_Threads_live_thorough"
     rl = lib.tlc("MC_Threads", cfg=live, workers=4 if q else 8, timeout=1500, heap="6g", deadlock=True)
     ctx.mc_must_pass(rl, "termination under weak fairness (%s, FairSpec)" % live, "MC_Threads")
@@ -66,7 +69,7 @@ def run(ctx):
         scratch = os.path.join(ctx.work, "scratch")
         os.makedirs(scratch, exist_ok=True)
         # (name, instances per workload, repetitions per thread count, size class, seed offset)
-        plan = [("q", 3, 2, 0, 0)] if q else [("t0", 8, 5, 0, 0), ("t1", 4, 4, 1, 500), ("t2", 8, 5, 0, 900)]
+        plan = [("q", 3, 2, 0, 0)] if q else [("t0", 7, 4, 0, 0), ("t1", 3, 3, 1, 500), ("t2", 7, 4, 0, 900)]
         traces = []
         for (name, ninst, reps, size, off) in plan:
             t = os.path.join(ctx.work, name + ".ndjson")
@@ -87,11 +90,18 @@ def run(ctx):
     res = lib.validate_parallel("Trace_Threads", [c[0] for c in chunks], jobs=4 if q else 8, timeout=2400, heap="3g")
     total = {"ev": 0, "out": 0, "runs": 0}
     seen_wl, seen_T, nref, nruns = set(), set(), 0, 0
+    races = {"lazy_lost_race_table%d" % i: 0 for i in range(1, 6)}
+    races["cache_insert_lost_race"] = 0
     for (p, ok, r, at) in res:
         recs = lib.read_ndjson(p)
         ctx.transitions += r.generated
         ctx.states += r.distinct
         for rec in recs:
+            # (counting only) how often the recorded schedules really raced for a first use
+            if rec["e"] == "lazy.enter" and rec["v"] == 1:
+                races["lazy_lost_race_table%d" % rec["id"]] += 1
+            elif rec["e"] == "cache.insert" and rec["c"] == 1:
+                races["cache_insert_lost_race"] += 1
             if rec["e"] == "Run":
                 nruns += 1
                 nref += 1 if rec["ref"] else 0
@@ -143,8 +153,12 @@ def run(ctx):
     ctx.extra["hook_events_checked"] = total["ev"]
     ctx.extra["outputs_compared"] = total["out"]
     ctx.extra["thread_counts"] = sorted(seen_T)
+    ctx.extra["first_use_races_recorded"] = races
     if not ctx.replay and not ctx.violations:
         missing = [w for w in WORKLOADS if w not in seen_wl]
+        idle = [k for k, v in races.items() if v == 0]
+        if idle:
+            raise lib.ModelFailure("vacuous run: no first-use race was recorded for %s" % idle)
         if missing or total["runs"] == 0 or total["out"] == 0 or not (seen_T & {16, 40}):
             raise lib.ModelFailure("vacuous run: workloads missing %s, runs %d, outputs %d, thread counts %s" % (missing, total["runs"], total["out"], sorted(seen_T)))
     ctx.exhaustive = False
